@@ -2,7 +2,9 @@ package main
 
 import (
 	"fmt"
+	"go/constant"
 	"go/token"
+	"go/types"
 	"sort"
 	"strings"
 
@@ -17,7 +19,8 @@ type rangeLoop struct {
 	f        *ssa.Function
 	header   *ssa.BasicBlock
 	body     map[*ssa.BasicBlock]bool
-	over     string // org of the ranged value
+	region   map[*ssa.BasicBlock]bool // degenerate loop (every iteration leaves): the blocks dominated by the body entry
+	over     string                   // org of the ranged value
 	overType string
 	pos      token.Pos
 	isMap    bool
@@ -32,7 +35,11 @@ func rangeLoops(f *ssa.Function) []*rangeLoop {
 				body[x] = true
 			}
 		}
-		out = append(out, &rangeLoop{f: f, header: ml.header, body: body, over: org(ml.rng.X), overType: typeStr(ml.rng.X.Type()), pos: ml.rng.Pos(), isMap: true})
+		rl := &rangeLoop{f: f, header: ml.header, body: body, over: org(ml.rng.X), overType: typeStr(ml.rng.X.Type()), pos: ml.rng.Pos(), isMap: true}
+		if len(body) == 1 {
+			rl.region = degenerateRegion(ml.header)
+		}
+		out = append(out, rl)
 	}
 	for _, b := range f.Blocks {
 		for _, in := range b.Instrs {
@@ -93,6 +100,9 @@ func rangeLoops(f *ssa.Function) []*rangeLoop {
 					delete(l.body, x)
 				}
 			}
+			if len(l.body) == 1 {
+				l.region = degenerateRegion(b)
+			}
 			if l.pos == token.NoPos && len(b.Succs) > 0 {
 				for _, in2 := range b.Succs[0].Instrs {
 					if in2.Pos() != token.NoPos {
@@ -116,6 +126,16 @@ type loopExit struct {
 // lead into a failing continuation.
 func (c *Ctx) earlyExits(l *rangeLoop) []loopExit {
 	var out []loopExit
+	// a loop whose body never comes back to the header (it always breaks or returns) has no natural-loop body: its
+	// exits are the edges that leave the region dominated by the body entry
+	for b := range l.region {
+		for _, s := range b.Succs {
+			if l.region[s] || c.failing(s) {
+				continue
+			}
+			out = append(out, loopExit{b, s})
+		}
+	}
 	for b := range l.body {
 		for _, s := range b.Succs {
 			if l.body[s] {
@@ -189,6 +209,14 @@ func exhaustiveLoopsRule(min int, roots ...string) Rule {
 				// predicates and searches: a function that returns values but no error cannot "fail"; leaving the loop
 				// with the answer is what it is for (contains, first match, all-of / any-of tests)
 				if rs := resultTypes(f); len(rs) > 0 && errIndex(f) < 0 {
+					if e := sameAnswerExit(l, ex); e != nil {
+						pos := l.pos
+						if last := e.from.Instrs[len(e.from.Instrs)-1]; last.Pos() != token.NoPos {
+							pos = last.Pos()
+						}
+						c.bad(id, n, what, pos, fmt.Sprintf("the loop over %s is left early and the function then returns exactly what it returns after the last element: the early exit carries no answer of its own, the remaining elements are simply not examined", short(l.over)))
+						continue
+					}
 					c.trivial(id, n, what, l.pos, "predicate / search function (results "+strings.Join(rs, ", ")+"): the early exit carries its answer")
 					continue
 				}
@@ -200,4 +228,115 @@ func exhaustiveLoopsRule(min int, roots ...string) Rule {
 			}
 		}
 	}}
+}
+
+// sameAnswerExit: in a function without error result an early exit is the point of a search or of an all-of / any-of
+// test only if it carries an answer: the values returned along it differ from those returned after exhaustion. An
+// early exit that runs, by plain jumps, into the same return statement as the header's exhaustion exit with the same
+// result values (no phi on the way tells the two apart) stops the loop without saying anything.
+func sameAnswerExit(l *rangeLoop, ex []loopExit) *loopExit {
+	var t0 *ssa.BasicBlock
+	for _, s := range l.header.Succs {
+		if !l.body[s] {
+			t0 = s
+		}
+	}
+	if t0 == nil {
+		return nil
+	}
+	follow := followJumps
+	along := phiAlong
+	same := func(a, b ssa.Value) bool {
+		if a == b {
+			return true
+		}
+		ka, ok1 := a.(*ssa.Const)
+		kb, ok2 := b.(*ssa.Const)
+		if ok1 && ok2 && types.Identical(ka.Type(), kb.Type()) {
+			if ka.Value == nil || kb.Value == nil {
+				return ka.Value == nil && kb.Value == nil
+			}
+			return constant.Compare(ka.Value, token.EQL, kb.Value)
+		}
+		return false
+	}
+	r0, p0 := follow(l.header, t0)
+	if r0 == nil {
+		return nil
+	}
+	for i := range ex {
+		r, p := follow(ex[i].from, ex[i].to)
+		if r == nil || r != r0 {
+			continue
+		}
+		all := len(r.Results) > 0
+		for _, v := range r.Results {
+			if !same(along(v, p), along(v, p0)) {
+				all = false
+			}
+		}
+		if all {
+			return &ex[i]
+		}
+	}
+	return nil
+}
+
+// degenerateRegion: the blocks dominated by the body entry (the true successor of the header's test) of a loop.
+func degenerateRegion(header *ssa.BasicBlock) map[*ssa.BasicBlock]bool {
+	if len(header.Succs) != 2 || len(header.Succs[0].Preds) != 1 {
+		return nil
+	}
+	entry := header.Succs[0]
+	out := map[*ssa.BasicBlock]bool{}
+	for _, x := range header.Parent().Blocks {
+		if x == entry || entry.Dominates(x) {
+			out[x] = true
+		}
+	}
+	return out
+}
+
+// followJumps walks from the edge from->to along plain jumps to a return; it yields the return and the edges walked.
+func followJumps(from, to *ssa.BasicBlock) (*ssa.Return, [][2]*ssa.BasicBlock) {
+	var path [][2]*ssa.BasicBlock
+	for i := 0; i < 32; i++ {
+		path = append(path, [2]*ssa.BasicBlock{from, to})
+		last := to.Instrs[len(to.Instrs)-1]
+		switch t := last.(type) {
+		case *ssa.Return:
+			return t, path
+		case *ssa.Jump:
+			from, to = to, to.Succs[0]
+		default:
+			return nil, nil
+		}
+	}
+	return nil, nil
+}
+
+// phiAlong: the value v has on the given path (phis of blocks on the path are replaced by their incoming value).
+func phiAlong(v ssa.Value, path [][2]*ssa.BasicBlock) ssa.Value {
+	for i := 0; i < 8; i++ {
+		ph, ok := v.(*ssa.Phi)
+		if !ok {
+			return v
+		}
+		found := false
+		for _, e := range path {
+			if e[1] != ph.Block() {
+				continue
+			}
+			for j, p := range ph.Block().Preds {
+				if p == e[0] {
+					v = ph.Edges[j]
+					found = true
+				}
+			}
+		}
+		if !found {
+			return v
+		}
+	}
+	return v
 }
